@@ -12,7 +12,17 @@ _FIDP = 'exactly_lib/processing/parse/file_inclusion_directive_parser.py'
 
 _RSL = 'exactly_lib/common/report_rendering/parts/source_location.py'
 
+_DPM = 'exactly_lib/section_document/document_parser.py'
+
 MUTANTS = [
+    ('d7-entry-root-file-not-among-the-visited-paths', 'C07', _DPM,
+     "                           [source_file_path.resolve()],", "                           [],",
+     'DocumentParser.parse_source : ensures[parsed-once-as-the-root-file'),
+    ('d7-entry-included-files-relative-to-the-current-directory', 'C07', _DPM,
+     "        return self._parse(file_location_info.abs_path_of_dir_containing_last_file_base_name,",
+     "        return self._parse(file_location_info.abs_path_of_dir_containing_first_file_path,",
+     'DocumentParser.parse_source : ensures[parsed-once-as-the-root-file'),
+
     # = the independently seeded change /verif/seeded/C07-s5 (the referrer directory is no longer accumulated along
     # the chain: the nested helper reads the outer, no longer re-bound, variable)
     ('d7-error-chain-referrer-location-not-accumulated', 'C07', _RSL,
